@@ -111,6 +111,18 @@ type InvariantDecl struct {
 	Line     string
 }
 
+// ChanDecl: `channel T.f carries <expr over value>`: every value sent on the channel held in field f of T satisfies
+// the expression (obligation at every send), so every value received from it does (assumed at every receive).
+type ChanDecl struct {
+	Type  string
+	Field string
+	E     Expr
+	Src   string
+	Pkg   string
+	Props []string
+	Line  string
+}
+
 type GuardedDecl struct {
 	Type  string
 	Field string
@@ -145,6 +157,7 @@ type ContractFile struct {
 	SpecFuncs  []*SpecFunc
 	Ghosts     []*GhostDecl
 	Invariants []*InvariantDecl
+	ChanDecls  []*ChanDecl
 	Guarded    []*GuardedDecl
 	Lemmas     []*LemmaDecl
 	DefaultModel string
@@ -163,7 +176,7 @@ type GlobalFact struct {
 	Pkg    string
 }
 
-var topKeywords = map[string]bool{"immutable": true, "pred": true, "global": true, "spec": true, "ghost": true, "invariant": true, "guarded": true, "lemma": true, "axiom": true, "extern": true, "interface": true, "func": true, "default": true}
+var topKeywords = map[string]bool{"immutable": true, "pred": true, "global": true, "spec": true, "ghost": true, "invariant": true, "guarded": true, "channel": true, "lemma": true, "axiom": true, "extern": true, "interface": true, "func": true, "default": true}
 var subKeywords = map[string]bool{"after": true, "assumes": true, "props": true, "model": true, "strings": true, "bytes": true, "requires": true, "ensures": true, "panics": true, "assigns": true, "pure": true, "loop": true, "at": true, "flag": true, "decreases": true, "use": true, "known": true, "hyp": true, "protects": true, "clause": true}
 
 type rawLine struct {
@@ -369,6 +382,26 @@ func ParseContractLines(pkg, path string, lines []rawLine) *ContractFile {
 			} else {
 				errf(d.loc, "protects outside invariant")
 			}
+		case "channel":
+			// channel T.f carries <expr>
+			f := strings.Fields(d.text)
+			ci := strings.Index(d.text, " carries ")
+			if len(f) < 3 || ci < 0 {
+				errf(d.loc, "bad channel declaration")
+				continue
+			}
+			dot := strings.LastIndex(f[0], ".")
+			if dot < 0 {
+				errf(d.loc, "channel needs T.f")
+				continue
+			}
+			src := strings.TrimSpace(d.text[ci+9:])
+			e, err := ParseExpr(src)
+			if err != nil {
+				errf(d.loc, "%v", err)
+				continue
+			}
+			cf.ChanDecls = append(cf.ChanDecls, &ChanDecl{Type: f[0][:dot], Field: f[0][dot+1:], E: e, Src: src, Pkg: pkg, Line: d.loc})
 		case "guarded":
 			// guarded T.f by lock   |  guarded T.f atomic
 			f := strings.Fields(d.text)
